@@ -10,7 +10,10 @@ import (
 	"strings"
 	"time"
 
+	"go/types"
+
 	"cvsslint/internal/facts"
+	"cvsslint/internal/ir"
 	"cvsslint/internal/load"
 	"cvsslint/internal/report"
 	"cvsslint/internal/rules"
@@ -23,7 +26,12 @@ func main() {
 	verif := flag.String("verif", "/verif", "verification directory (evidence, known findings)")
 	explain := flag.String("explain", "", "print a violations file in readable form")
 	list := flag.Bool("list", false, "list implemented properties")
+	dump := flag.String("dump", "", "developer aid: print the guarded leaves (with effects) of the named function, e.g. '(*v3/metric.Temporal).decodeOne'")
 	flag.Parse()
+	if *dump != "" {
+		dumpLeaves(*repo, *dump)
+		return
+	}
 	if *list {
 		fmt.Println(strings.Join(rules.Props(), " "))
 		return
@@ -100,4 +108,43 @@ func runVariant(ctx *report.Ctx, rf rules.RuleFunc, repo string, v load.Variant,
 	*analysed = append(*analysed, map[string]interface{}{"variant": v.Name, "packages": pkgs, "functions": p.NFuncs})
 	f := facts.Build(p)
 	rf(&rules.Env{P: p, F: f, C: ctx})
+}
+
+func dumpLeaves(repo, name string) {
+	p, err := load.Load(repo, load.Variant{Name: "default"})
+	if err != nil {
+		fmt.Println(err)
+		os.Exit(2)
+	}
+	f := facts.Build(p)
+	for _, fn := range f.AllFunctions() {
+		obj, _ := fn.Object().(*types.Func)
+		if obj == nil || load.FuncName(obj) != name {
+			continue
+		}
+		ls, err := ir.Leaves(fn, ir.LeafOptions{Forward: true, Effects: true, MaxPaths: 100000})
+		if err != nil {
+			fmt.Println("error:", err)
+			return
+		}
+		for i, l := range ls {
+			fmt.Printf("leaf %d  (return at %s)\n", i, p.Pos(l.Pos))
+			for _, g := range l.Guards {
+				fmt.Println("   guard ", g.Pretty())
+			}
+			for _, e := range l.Effects {
+				switch e.Kind {
+				case "store":
+					fmt.Println("   store ", e.Addr.Pretty(), "<-", e.Val.Pretty())
+				case "map-update":
+					fmt.Println("   mapupd", e.Addr.Pretty(), "[", e.Key.Pretty(), "] <-", e.Val.Pretty())
+				default:
+					fmt.Println("   call  ", e.Val.Pretty())
+				}
+			}
+			for _, r := range l.Ret {
+				fmt.Println("   ret   ", r.Pretty())
+			}
+		}
+	}
 }
